@@ -215,6 +215,96 @@ def racing_pair(ctx, rng, hid):
             ctx.violation("two writers conditional on the current ETag were both refused (%s %d, %s %d)" % (ka, sa, kb, sb), case)
 
 
+def racing_pair_inside(ctx, rng, hid):
+    """as racing_pair, but the first writer is held *inside* its exclusive window - after its precondition was evaluated, right before
+    the item is written or removed - for a moment in which the second writer is started.  With a storage lock that excludes writers
+    the second one waits and then finds its precondition false; for both storage types (flock-based and the in-process lock of
+    multifilesystem_nolock) exactly one of the two is carried out"""
+    import threading
+    from common import App
+    ev = lambda uid, n: ("BEGIN:VCALENDAR\r\nVERSION:2.0\r\nPRODID:x\r\nBEGIN:VEVENT\r\nUID:%s\r\nDTSTAMP:20240101T000000Z\r\n"     # noqa: E731
+                         "DTSTART:20240102T100000Z\r\nSUMMARY:v%d\r\nEND:VEVENT\r\nEND:VCALENDAR\r\n" % (uid, n))
+    stype = rng.choice(["multifilesystem", "multifilesystem_nolock", "multifilesystem_nolock"])
+    with App({"auth": {"type": "none"}, "storage": {"type": stype}}) as app:
+        app.request("MKCALENDAR", "/u/c/", login="u:pw")
+        st, hd, _ = app.request("PUT", "/u/c/a.ics", ev("a", 0), login="u:pw", CONTENT_TYPE="text/calendar")
+        etag = hd.get("ETag")
+        if st != 201 or not etag:
+            return
+        cond = rng.choice(["If-Match", "If-Match", "If-None-Match"])
+        if cond == "If-None-Match":
+            # two creators of the same new resource
+            target = "/u/c/new.ics"
+            kinds = {"PUT": lambda n: ("PUT", target, ev("n", n), {"HTTP_IF_NONE_MATCH": "*", "CONTENT_TYPE": "text/calendar"})}
+            ka = kb = "PUT"
+        else:
+            kinds = {"PUT": lambda n: ("PUT", "/u/c/a.ics", ev("a", n), {"HTTP_IF_MATCH": etag, "CONTENT_TYPE": "text/calendar"}),
+                     "DELETE": lambda n: ("DELETE", "/u/c/a.ics", None, {"HTTP_IF_MATCH": etag})}
+            ka = rng.choice(["PUT", "DELETE"])
+            kb = rng.choice(["PUT", "PUT", "DELETE"])
+        cls = app.storage._collection_class
+        orig_upload, orig_delete = cls.upload, cls.delete
+        storage = app.storage
+        orig_acquire = storage.acquire_lock
+        state = {"tid": threading.get_ident(), "b": None, "b_tid": None, "b_status": None, "b_done_inside": None, "na": 0, "nb": 0}
+        b_ready, a_inside = threading.Event(), threading.Event()
+
+        def run_b():
+            state["b_tid"] = threading.get_ident()
+            try:
+                m, p, b, env = kinds[kb](2)
+                state["b_status"] = app.request(m, p, b, login="u:pw", **env)[0]
+            finally:
+                b_ready.set()
+
+        def gated(mode, user="", *a, **k):
+            # the schedule: the first writer stops before its exclusive window and lets the second one get as far as *its* exclusive
+            # window (login and home-collection look-up done); then the first one goes in and is held at the write
+            me = threading.get_ident()
+            if me == state["tid"] and mode == "w" and state["b"] is None:
+                state["b"] = threading.Thread(target=run_b, daemon=True)
+                state["b"].start()
+                b_ready.wait(timeout=10)
+            elif me == state["b_tid"] and mode == "w":
+                b_ready.set()
+                a_inside.wait(timeout=10)
+            return orig_acquire(mode, user, *a, **k)
+
+        def hold():
+            if threading.get_ident() == state["tid"] and state["b"] is not None and not a_inside.is_set():
+                a_inside.set()
+                state["b"].join(timeout=0.25)
+                state["b_done_inside"] = not state["b"].is_alive()
+
+        def upload(self, *a, **k):
+            hold()
+            return orig_upload(self, *a, **k)
+
+        def delete(self, *a, **k):
+            hold()
+            return orig_delete(self, *a, **k)
+        cls.upload, cls.delete = upload, delete
+        storage.acquire_lock = gated
+        try:
+            m, p, b, env = kinds[ka](1)
+            sa = app.request(m, p, b, login="u:pw", **env)[0]
+        finally:
+            a_inside.set()
+            cls.upload, cls.delete = orig_upload, orig_delete
+            storage.acquire_lock = orig_acquire
+        if state["b"] is not None:
+            state["b"].join(timeout=30)
+        sb = state["b_status"]
+        case = {"storage_type": stype, "held_inside_its_write": "%s %s" % (ka, cond), "started_meanwhile": "%s %s" % (kb, cond),
+                "second_finished_while_first_was_inside": state["b_done_inside"], "statuses": {"held": sa, "meanwhile": sb}}
+        ctx.case("racing-inside:%s:%s/%s" % (stype, ka, kb), sample=case, key=["race-inside", hid], nontrivial=sb is not None)
+        if sb is not None and sa < 300 and sb < 300:
+            ctx.violation("lost update: two writers conditional on the same state (%s) were both carried out (%s %d, %s %d) with storage type %s"
+                          % (cond, ka, sa, kb, sb, stype), case)
+        if sb is not None and sa >= 300 and sb >= 300:
+            ctx.violation("two writers conditional on the current state were both refused (%s %d, %s %d)" % (ka, sa, kb, sb), case)
+
+
 def run(ctx):
     ctx.extra["rule"] = ("histories of 10-40 writes on 2 calendars and an address book with If-Match (current / stale / foreign / malformed / *) and "
                          "If-None-Match: *; after every successful PUT the ETag is read back through GET, HEAD, PROPFIND and REPORT; "
@@ -226,3 +316,6 @@ def run(ctx):
     rng2 = ctx.rng("race")
     for h in range(ctx.n(30, 600)):
         racing_pair(ctx, rng2, h)
+    rng3 = ctx.rng("race-inside")
+    for h in range(ctx.n(10, 120)):
+        racing_pair_inside(ctx, rng3, h)
